@@ -49,7 +49,51 @@ def plan(tier, seed):
     cases += [{'family': fam, 'cseed': rnd.randrange(1 << 30), 'solver': sv} for sv in ('euler', 'scipy') for _ in range(3 if tier == 'quick' else 30)]
     fam = 'probe:explicit_time_fixed_step' if 'explicit_time_fixed_step' in open_risks(PID) else 'explicit_time'
     cases += [{'family': fam, 'cseed': rnd.randrange(1 << 30), 'solver': sv} for sv in ('euler', 'heun') for _ in range(4 if tier == 'quick' else 40)]
+    # delayed terms (x(t-tau) syntax): runs that are longer than the initial capacity of the history buffer (1024 records)
+    cases += [{'family': 'long_dde', 'cseed': rnd.randrange(1 << 30), 'solver': 'euler'} for _ in range(6 if tier == 'quick' else 100)]
     return cases
+
+
+def run_long_dde_case(case, ctx):
+    """x' = c*x + k*x(t-tau), tau = lag*dt, Euler for 1100-2600 steps, sampling every 1, 2 or 5 steps: every returned row must be
+    the Euler iterate of the delayed recurrence (constant pre-history) - also after the history buffer has grown."""
+    from pyrates import OperatorTemplate, NodeTemplate, CircuitTemplate
+    rnd = random.Random(case['cseed'])
+    x0, k = round(rnd.uniform(0.2, 0.9), 3), round(rnd.uniform(-0.9, 0.9), 3)
+    c = -round(rnd.uniform(0.1, 0.9), 3)
+    dt, m = 1e-3, rnd.choice([1, 1, 2, 5])
+    lag = rnd.randint(5, 400)
+    tau = round(lag * dt, 6)
+    steps = rnd.randint(1100 // m, 2600 // m) * m
+    mech = {'long_dde_runs': 1}
+    res = {'features': ['long_dde', f'm{m}'], 'risk': [], 'sig': stable_hash([x0, c, k, lag, steps, m]), 'nontrivial': True}
+    ref = np.empty(steps + 1)
+    ref[0] = x0
+    for i in range(steps):
+        ref[i + 1] = ref[i] + dt * (c * ref[i] + k * (ref[i - lag] if i >= lag else x0))
+    ref = ref[:steps:m]
+    try:
+        op = OperatorTemplate(name='op', equations=[f"d/dt * x = c*x + k*x(t-{tau!r})"], variables={'x': f'output({x0})', 'c': c, 'k': k})
+        net = CircuitTemplate(name='net', nodes={'p': NodeTemplate(name='n', operators=[op])})
+        out = net.run(simulation_time=steps * dt, step_size=dt, sampling_step_size=m * dt, solver='euler', backend='default', outputs={'x': 'p/op/x'},
+                      vectorize=False, clear=True, in_place=False, verbose=False, float_precision='float64')
+        x = np.asarray(out['x'].values, dtype=float).squeeze()
+    except Exception as e:
+        res.update(status='violation', symptom=f"loud: long delayed run raised {type(e).__name__}: {e}", mech=mech)
+        return res
+    if x.shape != ref.shape:
+        res.update(status='violation', symptom=f"silent: long delayed run returned shape {x.shape}, expected {ref.shape}", mech=mech)
+        return res
+    err = np.abs(x - ref)
+    i = int(np.argmax(err))
+    if not err[i] <= 1e-9 * max(1.0, float(np.max(np.abs(ref)))):
+        first = int(np.nonzero(err > 1e-9)[0][0])
+        res.update(status='violation', symptom=f"silent: euler run of x' = c*x + k*x(t-tau) over {steps} steps (lag {lag} steps, sampling every {m}): row {first} is the "
+                   f"first that is not the Euler iterate ({x[first]!r} vs {ref[first]!r}), max deviation {err[i]:.3e} at row {i}", mech=mech)
+        return res
+    mech['rows_compared'] = int(x.size)
+    res.update(status='ok', symptom='', mech=mech)
+    return res
 
 
 def warmup(ctx):
@@ -214,6 +258,8 @@ def run_other_backend_case(case, ctx):
 def run_case(case, ctx):
     if case.get('family') == 'other_backends':
         return run_other_backend_case(case, ctx)
+    if case.get('family') == 'long_dde':
+        return run_long_dde_case(case, ctx)
     if case.get('family') in ('explicit_time', 'probe:explicit_time_fixed_step'):
         return run_explicit_time_case(case, ctx)
     if case.get('family') in ('duration', 'probe:duration_not_multiple_of_sampling_step'):
